@@ -169,12 +169,228 @@ theorem rt_int (k : String) (n : Int) (h : intKindOk k n = true) :
     subst h1 <;>
     simp [getKey, lookupSub, toStr, bind, Except.bind, pure, Except.pure, isIntKind, intRange, hd]
 
+/-! ### fixed-point text -/
+
+theorem splitDots_nodot : ∀ cs : List Char, (∀ c ∈ cs, c ≠ '.') → splitDots cs = [cs] := by
+  intro cs
+  induction cs with
+  | nil => intro _; simp [splitDots]
+  | cons c r ih =>
+    intro h
+    have hr := ih (fun x hx => h x (List.mem_cons_of_mem _ hx))
+    have hc : c ≠ '.' := h c (List.mem_cons_self ..)
+    simp only [splitDots, List.foldr_cons] at hr ⊢
+    rw [hr]; simp [hc]
+
+theorem splitDots_append_dot (a b : List Char) (ha : ∀ c ∈ a, c ≠ '.') (hb : ∀ c ∈ b, c ≠ '.') :
+    splitDots (a ++ '.' :: b) = [a, b] := by
+  induction a with
+  | nil =>
+    have := splitDots_nodot b hb
+    simp only [splitDots, List.nil_append, List.foldr_cons] at this ⊢
+    rw [this]; simp
+  | cons c r ih =>
+    have hr := ih (fun x hx => ha x (List.mem_cons_of_mem _ hx))
+    have hc : c ≠ '.' := ha c (List.mem_cons_self ..)
+    simp only [splitDots, List.cons_append, List.foldr_cons] at hr ⊢
+    rw [hr]; simp [hc]
+
+theorem digit_ne_dot (c : Char) (h : c.isDigit = true) : c ≠ '.' := by
+  intro e; subst e; simp [Char.isDigit] at h
+
+theorem toDigits_nodot (n : Nat) : ∀ c ∈ Nat.toDigits 10 n, c ≠ '.' :=
+  fun c hc => digit_ne_dot c (Nat.isDigit_of_mem_toDigits (by decide) (by decide) hc)
+
+theorem showFixed_toList (scale : Nat) (raw : Int) :
+    (showFixed scale raw).toList =
+      (if raw < 0 then ['-'] else []) ++ Nat.toDigits 10 (raw.natAbs / 10 ^ scale) ++
+        '.' :: padLeft scale (Nat.toDigits 10 (raw.natAbs % 10 ^ scale)) := by
+  unfold showFixed
+  by_cases h : raw < 0 <;> simp [h, Nat.toList_repr]
+
+theorem toDigits_length_le (n k : Nat) (hk : 0 < k) (h : n < 10 ^ k) : (Nat.toDigits 10 n).length ≤ k :=
+  (Nat.length_toDigits_le_iff (by decide) hk).mpr h
+
+theorem padLeft_eq (k : Nat) (ds : List Char) (h : ds.length ≤ k) :
+    padLeft k ds = List.replicate (k - ds.length) '0' ++ ds ∧ (padLeft k ds).length = k := by
+  unfold padLeft; simp; omega
+
+theorem parseDigits_pad (k n : Nat) (hk : 0 < k) (h : n < 10 ^ k) :
+    parseDigits (padLeft k (Nat.toDigits 10 n)) = some n := by
+  have hl := toDigits_length_le n k hk h
+  obtain ⟨he, _⟩ := padLeft_eq k _ hl
+  rw [he]
+  unfold parseDigits
+  have h1 : (List.replicate (k - (Nat.toDigits 10 n).length) '0' ++ Nat.toDigits 10 n).isEmpty = false := by
+    cases hd : Nat.toDigits 10 n with
+    | nil => exact absurd hd Nat.toDigits_ne_nil
+    | cons _ _ => simp
+  have h2 : (List.replicate (k - (Nat.toDigits 10 n).length) '0' ++ Nat.toDigits 10 n).all Char.isDigit = true := by
+    rw [List.all_eq_true]; intro c hc
+    rcases List.mem_append.mp hc with hc | hc
+    · rw [(List.mem_replicate.mp hc).2]; decide
+    · exact Nat.isDigit_of_mem_toDigits (by decide) (by decide) hc
+  simp only [h1, h2, Bool.not_false, Bool.and_self, if_true, Nat.ofDigitChars_append,
+    Nat.ofDigitChars_replicate_zero, Nat.mul_zero]
+  rw [Nat.ofDigitChars_ten_toDigits]
+
+theorem pad_head_ok (k n : Nat) (hk : 0 < k) (h : n < 10 ^ k) :
+    ∃ c cs, padLeft k (Nat.toDigits 10 n) = c :: cs ∧ c ≠ '+' ∧ c ≠ '-' ∧ (∀ x ∈ c :: cs, x ≠ '.') := by
+  have hl := toDigits_length_le n k hk h
+  obtain ⟨he, hlen⟩ := padLeft_eq k _ hl
+  have hall : ∀ x ∈ padLeft k (Nat.toDigits 10 n), x.isDigit = true := by
+    rw [he]; intro x hx
+    rcases List.mem_append.mp hx with hx | hx
+    · rw [(List.mem_replicate.mp hx).2]; decide
+    · exact Nat.isDigit_of_mem_toDigits (by decide) (by decide) hx
+  cases hp : padLeft k (Nat.toDigits 10 n) with
+  | nil => rw [hp] at hlen; simp at hlen; omega
+  | cons c cs =>
+    rw [hp] at hall
+    have hc := hall c (List.mem_cons_self ..)
+    refine ⟨c, cs, rfl, ?_, ?_, fun x hx => digit_ne_dot x (hall x hx)⟩
+    · intro e; subst e; simp [Char.isDigit] at hc
+    · intro e; subst e; simp [Char.isDigit] at hc
+
+theorem goParseFixed_showFixed (scale : Nat) (hs : 0 < scale) (raw : Int) :
+    goParseFixed scale (showFixed scale raw) = some raw := by
+  have hfp : raw.natAbs % 10 ^ scale < 10 ^ scale := Nat.mod_lt _ (Nat.pow_pos (by decide))
+  obtain ⟨c, cs, hpad, hc1, hc2, hnd⟩ := pad_head_ok scale _ hs hfp
+  have hpd := parseDigits_pad scale _ hs hfp
+  have hplen := (padLeft_eq scale _ (toDigits_length_le _ scale hs hfp)).2
+  obtain ⟨d, ds, hdig, hdd⟩ := toDigits_head_digit (raw.natAbs / 10 ^ scale)
+  have hipd := parseDigits_toDigits (raw.natAbs / 10 ^ scale)
+  have hdm : raw.natAbs / 10 ^ scale * 10 ^ scale + raw.natAbs % 10 ^ scale = raw.natAbs := by
+    rw [Nat.mul_comm]; exact Nat.div_add_mod raw.natAbs (10 ^ scale)
+  unfold goParseFixed
+  rw [showFixed_toList]
+  by_cases hneg : raw < 0
+  · simp only [hneg, if_true]
+    have hsplit : splitDots (['-'] ++ Nat.toDigits 10 (raw.natAbs / 10 ^ scale) ++ '.' :: padLeft scale (Nat.toDigits 10 (raw.natAbs % 10 ^ scale)))
+        = [['-'] ++ Nat.toDigits 10 (raw.natAbs / 10 ^ scale), padLeft scale (Nat.toDigits 10 (raw.natAbs % 10 ^ scale))] := by
+      apply splitDots_append_dot
+      · intro x hx
+        rcases List.mem_append.mp hx with hx | hx
+        · simp at hx; subst hx; decide
+        · exact toDigits_nodot _ x hx
+      · rw [hpad]; exact hnd
+    rw [hsplit]
+    simp only [List.singleton_append, goParseInt, String.toList_ofList, hipd, Option.map_some]
+    rw [hpad] at hpd hplen ⊢
+    simp only [hpd]
+    have : ¬ (c :: cs).length > scale := by omega
+    simp only [this, if_false, hplen, Nat.sub_self, Nat.pow_zero, Nat.mul_one]
+    split
+    · rename_i heq; injection heq with a _; exact absurd a hc1
+    · rename_i heq; injection heq with a _; exact absurd a hc2
+    · have e1 : (-Int.ofNat (raw.natAbs / 10 ^ scale)).natAbs = raw.natAbs / 10 ^ scale := by
+        rw [Int.natAbs_neg]; rfl
+      simp only [Nat.lt_irrefl, gt_iff_lt, if_false, e1, hdm, if_true, Option.some.injEq]
+      simp only [Int.ofNat_eq_natCast]
+      split
+      · simp only [if_true]
+        have : -(raw.natAbs : Int) = raw := by omega
+        exact this
+      · rename_i hm; exact absurd rfl (hm _)
+  · simp only [hneg, if_false, List.nil_append]
+    have hsplit : splitDots (Nat.toDigits 10 (raw.natAbs / 10 ^ scale) ++ '.' :: padLeft scale (Nat.toDigits 10 (raw.natAbs % 10 ^ scale)))
+        = [Nat.toDigits 10 (raw.natAbs / 10 ^ scale), padLeft scale (Nat.toDigits 10 (raw.natAbs % 10 ^ scale))] := by
+      apply splitDots_append_dot
+      · exact toDigits_nodot _
+      · rw [hpad]; exact hnd
+    rw [hsplit]
+    have hd1 : d ≠ '+' := by intro e; subst e; simp [Char.isDigit] at hdd
+    have hd2 : d ≠ '-' := by intro e; subst e; simp [Char.isDigit] at hdd
+    have hgi : goParseInt (String.ofList (Nat.toDigits 10 (raw.natAbs / 10 ^ scale))) = some (Int.ofNat (raw.natAbs / 10 ^ scale)) := by
+      unfold goParseInt
+      simp only [String.toList_ofList]
+      rw [hdig] at hipd ⊢
+      split
+      · rename_i heq; injection heq with a _; exact absurd a hd1
+      · rename_i heq; injection heq with a _; exact absurd a hd2
+      · simp [hipd]
+    simp only [hgi]
+    rw [hdig]
+    rw [hpad] at hpd hplen ⊢
+    simp only [hpd]
+    have : ¬ (c :: cs).length > scale := by omega
+    simp only [this, if_false, hplen, Nat.sub_self, Nat.pow_zero, Nat.mul_one]
+    have hnd' : ¬ (d = '-') := hd2
+    split
+    · rename_i heq; injection heq with a _; exact absurd a hc1
+    · rename_i heq; injection heq with a _; exact absurd a hc2
+    · split
+      · rename_i heq; exact absurd heq (Nat.lt_irrefl _)
+      · have e1 : (Int.ofNat (raw.natAbs / 10 ^ scale)).natAbs = raw.natAbs / 10 ^ scale := rfl
+        have e2 : (match d :: ds ++ '.' :: c :: cs with | '-' :: _ => true | _ => false) = false := by
+          split
+          · rename_i heq; injection heq with a _; exact absurd a hd2
+          · rfl
+        simp only [e1, hdm, Option.some.injEq]
+        simp only [Int.ofNat_eq_natCast]
+        split
+        · rename_i heq; injection heq with a _; exact absurd a hd2
+        · simp only [Bool.false_eq_true, if_false]
+          have : (raw.natAbs : Int) = raw := by omega
+          exact this
+
+theorem showFixed_nonneg_head (scale : Nat) (raw : Int) (h : 0 ≤ raw) :
+    (match (showFixed scale raw).toList with | '-' :: _ => true | _ => false) = false := by
+  rw [showFixed_toList]
+  have hn : ¬ raw < 0 := by omega
+  obtain ⟨d, ds, hdig, hdd⟩ := toDigits_head_digit (raw.natAbs / 10 ^ scale)
+  simp only [hn, if_false, List.nil_append, hdig, List.cons_append]
+  have hd2 : d ≠ '-' := by intro e; subst e; simp [Char.isDigit] at hdd
+  split
+  · rename_i heq; injection heq with a _; exact absurd a hd2
+  · rfl
+
+theorem fixKind_names (k : String) (r) (h : fixInfo k = some r) :
+    k = "Fix64" ∨ k = "UFix64" ∨ k = "Fix128" ∨ k = "UFix128" := by
+  unfold fixInfo at h
+  split at h <;> simp_all
+
+theorem fixKind_names' (k : String) (n : Int) (h : fixKindOk k n = true) :
+    k = "Fix64" ∨ k = "UFix64" ∨ k = "Fix128" ∨ k = "UFix128" := by
+  unfold fixKindOk at h
+  cases hf : fixInfo k with
+  | none => simp [hf] at h
+  | some r => exact fixKind_names k r hf
+
+theorem decodeFixKind_show (k : String) (n : Int) (h : fixKindOk k n = true) :
+    decodeFixKind k (.str (showFixed (fixScale k) n)) = .ok (.fix k n) := by
+  unfold decodeFixKind
+  simp only [toStr, bind, Except.bind]
+  have hk := fixKind_names' k n h
+  rcases hk with rfl | rfl | rfl | rfl
+  · rw [goParseFixed_showFixed _ (by decide)]
+    simp [h, pure, Except.pure]
+  · have hn : 0 ≤ n := by simp [fixKindOk, fixInfo] at h; omega
+    rw [goParseFixed_showFixed _ (by decide)]
+    simp [h, pure, Except.pure]
+    exact showFixed_nonneg_head _ n hn
+  · rw [goParseFixed_showFixed _ (by decide)]
+    simp [h, pure, Except.pure]
+  · have hn : 0 ≤ n := by simp [fixKindOk, fixInfo] at h; omega
+    rw [goParseFixed_showFixed _ (by decide)]
+    simp [h, pure, Except.pure]
+    exact showFixed_nonneg_head _ n hn
+
+theorem rt_fix (k : String) (n : Int) (h : fixKindOk k n = true) :
+    decode (prepare (.fix k n)) = .ok (.fix k n) := by
+  have hd := decodeFixKind_show k n h
+  have hk := fixKind_names' k n h
+  simp only [decode, prepare, vobj]; rw [decodeValue]
+  rcases hk with rfl | rfl | rfl | rfl <;>
+    simp [getKey, lookupSub, toStr, bind, Except.bind, pure, Except.pure, isIntKind, isFixKind, intRange, fixInfo, hd]
+
 /-- scalar values in the domain of the JSON-Cadence round-trip theorem proved so far -/
 def scalarOk : CValue → Bool
   | .void | .none | .bool _ | .str _ => true
   | .char s => s.length == 1
   | .addr bs => bs.length == 8
   | .int k n => intKindOk k n
+  | .fix k n => fixKindOk k n
   | .path d _ => validDomain d
   | _ => false
 
@@ -195,6 +411,7 @@ theorem rt_scalar (v : CValue) (h : scalarOk v = true) : decode (prepare v) = .o
   · exact rt_char _ h
   · exact rt_addr _ h
   · exact rt_int _ _ h
+  · exact rt_fix _ _ h
   · exact rt_path _ _ h
 
 theorem erase_scalar (v : CValue) (h : scalarOk v = true) : erase v = v := by
@@ -348,5 +565,141 @@ theorem rt_plainPs : ∀ kvs : Pairs, plainOkPs kvs = true → decodePairsList (
     simp only [preparePairs, erasePairs]
     rw [decodePairsList_cons, rt_plain k h.1.1, rt_plain v h.1.2, rt_plainPs r h.2]; rfl
 end
+
+/-! ### round trips of types without composite types, type values and capabilities -/
+
+def reservedKind (id : String) : Bool :=
+  id == "Function" || id == "Intersection" || id == "Optional" || id == "Restriction" || id == "VariableSizedArray" ||
+  id == "Capability" || id == "Dictionary" || id == "InclusiveRange" || id == "ConstantSizedArray" || id == "Reference"
+
+/-- types built from simple types with optionals, arrays, dictionaries, ranges, capabilities and
+unauthorized references -/
+def simpleT : CType → Bool
+  | .nil => true
+  | .prim id => isSimpleTypeName id && !reservedKind id
+  | .opt t | .varr t | .range t | .cap t => simpleT t
+  | .carr n t => decide (n < 2 ^ 53) && simpleT t
+  | .dict k v => simpleT k && simpleT v
+  | .ref .unauth t => simpleT t
+  | _ => false
+
+theorem decodeType_prim (id : String) (h1 : isSimpleTypeName id = true) (h2 : reservedKind id = false) (rs : Results) :
+    decodeType (.obj [("kind", .str id)]) rs = .ok (.prim id, rs) := by
+  rw [decodeType]
+  simp only [reservedKind, Bool.or_eq_false_iff] at h2
+  simp [getKey, lookupSub, toStr, bind, Except.bind, pure, Except.pure, h1, h2]
+
+theorem decodeType_unary (k : String) (x : Json) (rs : Results) (c : CType → CType)
+    (hk : (k = "Optional" ∧ c = CType.opt) ∨ (k = "VariableSizedArray" ∧ c = CType.varr) ∨ (k = "Capability" ∧ c = CType.cap)) :
+    decodeType (.obj [("type", x), ("kind", .str k)]) rs = (do let (t, rs) ← decodeType x rs; pure (c t, rs)) := by
+  rw [decodeType]
+  rcases hk with ⟨rfl, rfl⟩ | ⟨rfl, rfl⟩ | ⟨rfl, rfl⟩ <;>
+    simp [getKey, lookupSub, toStr, bind, Except.bind, pure, Except.pure]
+
+theorem decodeType_range (x : Json) (rs : Results) :
+    decodeType (.obj [("element", x), ("kind", .str "InclusiveRange")]) rs = (do let (t, rs) ← decodeType x rs; pure (.range t, rs)) := by
+  rw [decodeType]
+  simp [getKey, lookupSub, toStr, bind, Except.bind, pure, Except.pure]
+
+theorem decodeType_carr (n : Nat) (hn : n < 2 ^ 53) (x : Json) (rs : Results) :
+    decodeType (.obj [("type", x), ("kind", .str "ConstantSizedArray"), ("size", .num n)]) rs =
+      (do let (t, rs) ← decodeType x rs; pure (.carr n t, rs)) := by
+  rw [decodeType]
+  simp [getKey, lookupSub, toStr, toUIntJ, hn, bind, Except.bind, pure, Except.pure]
+
+theorem decodeType_dict (x y : Json) (rs : Results) :
+    decodeType (.obj [("key", x), ("value", y), ("kind", .str "Dictionary")]) rs =
+      (do let (k, rs) ← decodeType x rs; let (v, rs) ← decodeType y rs; pure (.dict k v, rs)) := by
+  rw [decodeType]
+  simp [getKey, lookupSub, toStr, bind, Except.bind, pure, Except.pure]
+
+theorem decodeType_ref_unauth (x : Json) (rs : Results) :
+    decodeType (.obj [("type", x), ("kind", .str "Reference"), ("authorization", prepareAuth .unauth)]) rs =
+      (do let (t, rs) ← decodeType x rs; pure (.ref .unauth t, rs)) := by
+  rw [decodeType]
+  simp [getKey, lookupSub, toStr, bind, Except.bind, pure, Except.pure, prepareAuth, decodeAuth]
+
+theorem decodeType_nil (rs : Results) : decodeType (.str "") rs = .ok (.nil, rs) := by
+  rw [decodeType]; simp [pure, Except.pure]
+
+/-- encoding a type without composite types does not change the `results` table, and decoding the
+encoding returns the type and leaves the decoder's table unchanged -/
+theorem simpleT_rt : ∀ (t : CType), simpleT t = true → ∀ (ps : PResults) (rs : Results),
+    (prepareTypeR t ps).2 = ps ∧ decodeType (prepareTypeR t ps).1 rs = .ok (t, rs)
+  | .nil, _, ps, rs => by simp [prepareTypeR, decodeType_nil]
+  | .prim id, h, ps, rs => by
+    simp only [simpleT, Bool.and_eq_true, Bool.not_eq_true'] at h
+    simp [prepareTypeR, decodeType_prim id h.1 h.2]
+  | .opt t, h, ps, rs => by
+    simp only [simpleT] at h
+    have ih := simpleT_rt t h ps rs
+    simp only [prepareTypeR]
+    refine ⟨ih.1, ?_⟩
+    rw [decodeType_unary "Optional" _ rs CType.opt (.inl ⟨rfl, rfl⟩), ih.2]; rfl
+  | .varr t, h, ps, rs => by
+    simp only [simpleT] at h
+    have ih := simpleT_rt t h ps rs
+    simp only [prepareTypeR]
+    refine ⟨ih.1, ?_⟩
+    rw [decodeType_unary "VariableSizedArray" _ rs CType.varr (.inr (.inl ⟨rfl, rfl⟩)), ih.2]; rfl
+  | .cap t, h, ps, rs => by
+    simp only [simpleT] at h
+    have ih := simpleT_rt t h ps rs
+    simp only [prepareTypeR]
+    refine ⟨ih.1, ?_⟩
+    rw [decodeType_unary "Capability" _ rs CType.cap (.inr (.inr ⟨rfl, rfl⟩)), ih.2]; rfl
+  | .range t, h, ps, rs => by
+    simp only [simpleT] at h
+    have ih := simpleT_rt t h ps rs
+    simp only [prepareTypeR]
+    refine ⟨ih.1, ?_⟩
+    rw [decodeType_range, ih.2]; rfl
+  | .carr n t, h, ps, rs => by
+    simp only [simpleT, Bool.and_eq_true, decide_eq_true_eq] at h
+    have ih := simpleT_rt t h.2 ps rs
+    simp only [prepareTypeR]
+    refine ⟨ih.1, ?_⟩
+    rw [decodeType_carr n h.1, ih.2]; rfl
+  | .dict k v, h, ps, rs => by
+    simp only [simpleT, Bool.and_eq_true] at h
+    have ihk := simpleT_rt k h.1 ps rs
+    have ihv := simpleT_rt v h.2 (prepareTypeR k ps).2 rs
+    simp only [prepareTypeR]
+    rw [ihk.1] at ihv
+    refine ⟨by rw [ihk.1]; exact ihv.1, ?_⟩
+    rw [decodeType_dict, ihk.2]
+    simp only [bind, Except.bind]
+    rw [ihk.1, ihv.2]; rfl
+  | .ref a t, h, ps, rs => by
+    cases a <;> simp only [simpleT, Bool.false_eq_true] at h
+    have ih := simpleT_rt t h ps rs
+    simp only [prepareTypeR]
+    refine ⟨ih.1, ?_⟩
+    rw [decodeType_ref_unauth, ih.2]; rfl
+  | .inter _, h, _, _ | .func _ _ _ _, h, _, _ | .comp _ _ _ _ _, h, _, _ | .seen _, h, _, _ => by simp [simpleT] at h
+
+theorem decodeTypeTop_prepareType (t : CType) (h : simpleT t = true) : decodeTypeTop (prepareType t) = .ok t := by
+  unfold decodeTypeTop prepareType
+  rw [(simpleT_rt t h [] []).2]; rfl
+
+theorem rt_typeValue (t : CType) (h : simpleT t = true) : decode (prepare (.type t)) = .ok (erase (.type t)) := by
+  simp only [decode, prepare, vobj, erase]
+  rw [decodeValue]
+  simp [getKey, lookupSub, toStr, bind, Except.bind, pure, Except.pure, isIntKind, isFixKind, intRange, fixInfo, asObj,
+    decodeTypeTop_prepareType t h]
+
+theorem decodeIntKind_uint64 (n : Nat) (h : n < 2 ^ 64) : decodeIntKind "UInt64" (.str (showNat n)) = .ok (.int "UInt64" n) := by
+  have hk : intKindOk "UInt64" (n : Int) = true := by
+    simp [intKindOk, intRange, inRange]; omega
+  have := decodeIntKind_show "UInt64" (n : Int) hk
+  have hs : showInt (n : Int) = showNat n := by simp [showInt, showNat]
+  rw [hs] at this; exact this
+
+theorem rt_capability (id : Nat) (a : List UInt8) (t : CType) (hid : id < 2 ^ 64) (ha : a.length = 8) (h : simpleT t = true) :
+    decode (prepare (.cap id a t)) = .ok (erase (.cap id a t)) := by
+  simp only [decode, prepare, vobj, erase]
+  rw [decodeValue]
+  simp [getKey, lookupSub, toStr, bind, Except.bind, pure, Except.pure, isIntKind, isFixKind, intRange, fixInfo, asObj,
+    decodeTypeTop_prepareType t h, decodeAddr_addrJson a ha, hasKey, decodeIntKind_uint64 id hid]
 
 end Verif.Proofs.Codec.Json
